@@ -120,6 +120,13 @@ def grid(rng):
         for a in vals:
             t = ("u", op, const_of(a, rng))
             out.append((render(t, 0, rng), sexp(t), "grid-unary"))
+    for u1 in UNOPS:
+        for u2 in UNOPS:
+            for a in vals:
+                t = ("u", u1, ("u", u2, const_of(a, rng)))
+                out.append((render(t, 0, rng), sexp(t), "grid-unary-unary"))
+                t = ("u", u1, ("u", u1, ("u", u2, const_of(a, rng))))
+                out.append((render(t, 0, rng), sexp(t), "grid-unary-unary"))
     for f in FUNCS + ["LOW", "High", "nosuchfn"]:
         for a in vals:
             t = ("f", f, const_of(a, rng))
